@@ -100,6 +100,8 @@ def place_demo(src, wt):
                 while cand and not os.path.isdir(os.path.join(wt, cand)):
                     cand = os.path.dirname(cand)
                 if cand and any(f.endswith(".go") for f in os.listdir(os.path.join(wt, cand))):
+                    if base == "main" and not (cand.startswith("cmd/") or cand.startswith("examples/")):
+                        continue  # a package main demo belongs to a tool directory
                     d = cand
                     break
         if d is None and cands:
